@@ -842,6 +842,18 @@ class TIMachine(FormatMachine):
             # the mapping of a header-less file is undocumented except for what the properties say themselves: every
             # (relative) checksum path keeps exactly the algorithm and value the file gives for it (C16)
             partial = {"checksums": copy.deepcopy(exp["checksums"])}
+            if int(exp["tree"]["build_timestamp"]) != 0:
+                # ... and arch / timestamp / platforms are what the compatibility sections say: the arch plus every platform
+                # that has an image table (C17: "a pre-productmd reader sees the same tree")
+                arch0 = exp["tree"]["arch"]
+                plats0 = set([arch0])
+                for n, o in keep:
+                    if n.startswith("images-"):
+                        pl = n[7:]
+                        if pl != arch0 and pl.endswith("-" + arch0):
+                            pl = pl[:-len(arch0) - 1]
+                        plats0.add(pl)
+                partial["tree"] = {"arch": arch0, "build_timestamp": int(exp["tree"]["build_timestamp"]), "platforms": sorted(plats0)}
             exp = None
         else:
             vt = tuple(int(x) for x in ver.split("."))
